@@ -59,7 +59,7 @@ pub enum Case {
     SmartPtr { kind: u8, a: u32, s: String, v: Vec<u64> },
     Range { data: Bytes, start: u16, len: u16, chunks: Vec<u8>, via_seek: bool },
     StreamBuf { data: Bytes, cfg: u8, reads: Vec<u16>, chunks: Vec<u8>, mode: u8 },
-    Versioned { wmaj: u8, wmin: u8, fmaj: u8, fmin: u8, val: u64, s: String },
+    Versioned { wmaj: u8, wmin: u8, fmaj: u8, fmin: u8, rmaj: u8, rmin: u8, val: u64, s: String },
 }
 
 // ---------------------------------------------------------------------------------------
@@ -417,7 +417,8 @@ impl Prop for P {
             "versioning",
             q(1500, 30_000),
             0,
-            (0u8..4, 0u8..4, 0u8..4, 0u8..4, u64_boundary(), small_string()).prop_map(|(wmaj, wmin, fmaj, fmin, val, s)| Case::Versioned { wmaj, wmin, fmaj, fmin, val, s }),
+            (0u8..4, 0u8..4, 0u8..4, 0u8..4, 0u8..4, 0u8..4, u64_boundary(), small_string())
+                .prop_map(|(wmaj, wmin, fmaj, fmin, rmaj, rmin, val, s)| Case::Versioned { wmaj, wmin, fmaj, fmin, rmaj, rmin, val, s }),
         ));
         v
     }
@@ -434,7 +435,7 @@ impl Prop for P {
             Case::SmartPtr { kind, a, s, v } => run_smart_ptr(ctx, kind, a, s, v),
             Case::Range { data, start, len, chunks, via_seek } => run_range(ctx, &data.0, start, len, &chunks, via_seek),
             Case::StreamBuf { data, cfg, reads, chunks, mode } => run_stream_buf(ctx, &data.0, cfg, &reads, &chunks, mode),
-            Case::Versioned { wmaj, wmin, fmaj, fmin, val, s } => run_versioned(ctx, wmaj, wmin, fmaj, fmin, val, s),
+            Case::Versioned { wmaj, wmin, fmaj, fmin, rmaj, rmin, val, s } => run_versioned(ctx, wmaj, wmin, fmaj, fmin, rmaj, rmin, val, s),
         }
     }
 }
@@ -1170,7 +1171,7 @@ fn run_stream_buf(ctx: &mut Ctx, data: &[u8], cfg: u8, reads: &[u16], chunks: &[
     }
 }
 
-fn run_versioned(ctx: &mut Ctx, wmaj: u8, wmin: u8, fmaj: u8, fmin: u8, val: u64, s: String) {
+fn run_versioned(ctx: &mut Ctx, wmaj: u8, wmin: u8, fmaj: u8, fmin: u8, rmaj: u8, rmin: u8, val: u64, s: String) {
     use zipora::io::{SliceDataInput, VecDataOutput, Version, VersionManager, VersionProxy};
     ctx.nontrivial();
     let wv = Version::new(wmaj as u16, wmin as u16, 0);
@@ -1206,6 +1207,30 @@ fn run_versioned(ctx: &mut Ctx, wmaj: u8, wmin: u8, fmaj: u8, fmin: u8, val: u64
             ctx.eq("versioned_consumed", "", &c, &0x42);
         }
         Some(Err(e)) => ctx.fail("versioned_roundtrip", "err", "", format!("{e}")),
+        None => {}
+    }
+    // A reader configured for a *different* reading version (typically older than the field):
+    // whatever it decides about the field, it must consume exactly the bytes the writer
+    // produced for it, so the following field and the sentinel still line up; and a field the
+    // writer did write must come back as its value or as None, never as something else.
+    let rv = Version::new(rmaj as u16, rmin as u16, 0);
+    let mut rm2 = VersionManager::new(wv);
+    rm2.register_field("f", fv);
+    rm2.set_reading_version(rv);
+    let mut i2 = SliceDataInput::new(&buf);
+    ctx.label(if rm2.should_deserialize_field("f") { "reader_supports_field" } else { "reader_skips_field" });
+    let got2 = ctx.no_panic("versioned_read_other_version", || -> zipora::Result<(Option<u64>, Option<String>, u8)> {
+        let a = rm2.deserialize_field::<u64, _>("f", &mut i2)?;
+        let b = rm2.deserialize_field::<String, _>("always", &mut i2)?;
+        let c = i2.read_u8()?;
+        Ok((a, b, c))
+    });
+    match got2 {
+        Some(Ok((a, b, c))) => {
+            ctx.ensure("versioned_roundtrip", "field_other_reading_version", a.is_none() || (wrote_f && a == Some(val)), || format!("field decoded as {:?}, written {:?}", a, if wrote_f { Some(val) } else { None }));
+            ctx.eq("versioned_consumed", "after_field_other_reading_version", &(b, c), &(Some(s.clone()), 0x42));
+        }
+        Some(Err(e)) => ctx.fail("versioned_consumed", "err", "after_field_other_reading_version", format!("{e}")),
         None => {}
     }
     // VersionProxy is SerializableType
